@@ -161,7 +161,7 @@ def scenario(ctx):
 	pool = Q.build(ctx, random.Random(ch.subseed('pool')), PoolWorld(kspec, founders), ch.int(2, 8, 'n_pool'))
 	cache = SigCache(pool)
 	ctx.log('world', k=kspec.k, prefix=kspec.prefix_str, pool=[(g['stem'] + g['ext'], blob_hash(g['sig'])) for g in pool.genomes])
-	all_paths = [g['plain'] for g in pool.genomes] + [g['gz'] for g in pool.genomes] + [g['alias'] for g in pool.genomes if g['alias']]
+	all_paths = [g['plain'] for g in pool.genomes] + [g['gz'] for g in pool.genomes] + [g['alias'] for g in pool.genomes if g['alias']] + [g['link'] for g in pool.genomes]
 	npool = len(pool.genomes)
 	omp.set_threads(ch.int(1, 16, 'initial_threads'))
 	n_cmd = ch.int(5, 10, 'n_cmd')
@@ -173,7 +173,14 @@ def scenario(ctx):
 		cores = ch.pick([None, 1, 2, 3, 4, 8, 16], L + '.cores')
 		progress = ch.flip(0.5, L + '.progress')
 		kgiven = ch.flip(0.4, L + '.kgiven')
-		knobs = Knobs(ch, L, with_chunk=False)
+		knobs = Knobs(ch, L, with_chunk=False, faults=True)
+		needs_cwd = None
+		fault_paths = None
+		if ch.flip(0.1, L + '.failing_before'):
+			fk = Knobs(ch, L + '.fail', with_chunk=False)
+			fres, _ = run_cli(ctx, ['tree', '-k', str(kspec.k), '-p', kspec.prefix_str, '--no-progress', pool.genomes[0]['plain'], pool.broken], fk)
+			ctx.fault('failing_command_before', status=fres.status)
+			ctx.log('failing_cmd', status=fres.status)
 		if channel == 'sigfile':
 			eff = kspec
 			path, labels = write_sigfile(ctx, pool, idxs, kspec, f'tree-{c}.gs', int_ids=ch.flip(0.2, L + '.intids'))
@@ -186,7 +193,7 @@ def scenario(ctx):
 			else:
 				eff = DEFAULT_KMERSPEC
 				kargs = []
-			forms = [ch.pick(['plain', 'gz', 'plain', 'gz', 'alias'], f'{L}.f{i}') for i in range(n)]
+			forms = [ch.pick(['plain', 'gz', 'plain', 'gz', 'alias', 'link'], f'{L}.f{i}') for i in range(n)]
 			paths = [pool.genomes[g][f] or pool.genomes[g]['plain'] for g, f in zip(idxs, forms)]
 			if channel == 'positional':
 				args_in = list(paths)
@@ -198,10 +205,15 @@ def scenario(ctx):
 				with open(lf, 'w') as f:
 					f.write('\n'.join(rels) + '\n')
 				args_in = ['-l', lf, '--ldir', base]
+				if ch.flip(0.3, L + '.no_ldir'):
+					args_in = ['-l', lf]
+					needs_cwd = base
 				labels = [label_model(r) for r in rels]
+			fault_paths = paths
 		args = ['tree'] + kargs + (['-c', str(cores)] if cores is not None else []) + ['--progress' if progress else '--no-progress'] + args_in
 		cwd = pool.decoy_cwd if ch.flip(0.5, L + '.decoy_cwd') else None
-		res, h = run_cli(ctx, args, knobs, short_paths=all_paths, short_seed=ch.subseed(L + '.short'), cwd=cwd, ch=ch, label=L)
+		cwd = needs_cwd or cwd
+		res, h = run_cli(ctx, args, knobs, short_paths=all_paths, short_seed=ch.subseed(L + '.short'), cwd=cwd, ch=ch, label=L, fault_paths=fault_paths)
 		ctx.stats['executions'] += 1
 		order = list(h.sim.completion_order)
 		text = res.stdout
@@ -218,6 +230,11 @@ def scenario(ctx):
 			ctx.probe('completion_out_of_submission_order')
 		if n >= 3 or has_tie:
 			ctx.key(channel, tuple(idxs), has_tie, cores, tuple(order))
+		if h.fault_fired and res.status != 0:
+			ctx.probe('command_failed_under_fault')
+			continue
+		if h.fault_fired:
+			ctx.probe('command_succeeded_under_fault')
 		if res.status != 0:
 			ctx.violation('C17.failed', f'{desc}: exit status {res.status} ({type(res.exc).__name__ if res.exc else "-"})', detail=f'{res.exc!r} {res.stderr[-400:]}')
 		check_tree(ctx, desc, text, labels, dmat)
